@@ -14,6 +14,7 @@ from vv.core import Result, exc_violation, innermost_is_harness
 
 ID = 'C18'
 CASES = {'quick': 1000, 'thorough': 60000}
+FUZZ_RUNS = 40000        # thorough tier: atheris workers, -runs per worker
 RULE = ('Hypothesis draws a fixed-shape tree (depth <=4, keys a,b,c,x), 1..6 '
         'increasing times, a value for every (leaf,time) cell from ints incl 0, '
         'floats, bools, "", strings, [], lists and quantities (one unit per '
